@@ -292,41 +292,39 @@ class BaseDiscretizer(BaseEstimator, TransformerMixin):
         DataFrame
             A formatted copy of X
         """
+        # checking for X's type
+        assert isinstance(
+            X, DataFrame
+        ), f" - [Discretizer] X must be a pandas.DataFrame, instead {type(X)} was passed"
+
+        # copying X
         x_copy = X
-        if X is not None:
-            # checking for X's type
+        if self.copy:
+            x_copy = X.copy()
+
+        # casting features for multiclass targets
+        x_copy = self._cast_features(x_copy)
+
+        # checking for input columns
+        missing_columns = [feature for feature in self.features if feature not in x_copy]
+        assert len(missing_columns) == 0, (
+            f" - [Discretizer] Requested discretization of {str(missing_columns)} but those"
+            " columns are missing from provided X. Please check your inputs! "
+        )
+
+        if y is not None:
+            # checking for y's type
             assert isinstance(
-                X, DataFrame
-            ), f" - [Discretizer] X must be a pandas.DataFrame, instead {type(X)} was passed"
+                y, Series
+            ), f" - [Discretizer] y must be a pandas.Series, instead {type(y)} was passed"
 
-            # copying X
-            x_copy = X
-            if self.copy:
-                x_copy = X.copy()
+            # checking for nans in the target
+            assert not any(y.isna()), " - [Discretizer] y should not contain numpy.nan"
 
-            # casting features for multiclass targets
-            x_copy = self._cast_features(x_copy)
-
-            # checking for input columns
-            missing_columns = [feature for feature in self.features if feature not in x_copy]
-            assert len(missing_columns) == 0, (
-                f" - [Discretizer] Requested discretization of {str(missing_columns)} but those"
-                " columns are missing from provided X. Please check your inputs! "
-            )
-
-            if y is not None:
-                # checking for y's type
-                assert isinstance(
-                    y, Series
-                ), f" - [Discretizer] y must be a pandas.Series, instead {type(y)} was passed"
-
-                # checking for nans in the target
-                assert not any(y.isna()), " - [Discretizer] y should not contain numpy.nan"
-
-                # checking indices
-                assert len(y.index) == len(X.index) and all(
-                    y.index == X.index
-                ), " - [Discretizer] X and y must have the same indices."
+            # checking indices
+            assert len(y.index) == len(X.index) and all(
+                y.index == X.index
+            ), " - [Discretizer] X and y must have the same indices."
 
         return x_copy
 
